@@ -1220,7 +1220,16 @@ func (r *RIBHolder) GetNextHopGroup(id uint64) (*aft.Afts_NextHopGroup, bool) {
 
 // candidateRIB takes the input set of Afts and returns them as a aft.RIB pointer
 // that can be merged into an existing RIB.
-func candidateRIB(a *aftpb.Afts) (*aft.RIB, error) {
+func candidateRIB(a *aftpb.Afts) (_ *aft.RIB, retErr error) {
+	// The conversion libraries panic on some malformed messages (e.g. an enum
+	// field holding a number that the schema does not define); such a message
+	// is invalid input, not a reason to take the server down.
+	defer func() {
+		if r := recover(); r != nil {
+			retErr = fmt.Errorf("invalid AFT message, %v", r)
+		}
+	}()
+
 	paths, err := protomap.PathsFromProto(a)
 	if err != nil {
 		return nil, err
